@@ -47,7 +47,7 @@ def Good (c : NRCfg F) (obj : F → Eval F) (n0 bound : Nat) (s0 f0 : F) : LoopE
       InB c ns ∧ ev = obj ns ∧ step = newtonStep ev ∧ n0 ≤ niter ∧ niter < bound ∧
       ((flag = -2 ∧ ns = c.nsMin ∧ (step < 0 ∨ (ns = c.nsMax ∧ 0 < step))) ∨
        (flag = -1 ∧ ns ≠ c.nsMin ∧ ns = c.nsMax ∧ 0 < step)) ∧
-      (∀ q ∈ qs, InB c q) ∧ qs.length = niter + 1
+      (∀ q ∈ qs, InB c q) ∧ qs.length = niter + 1 ∧ qs.head? = some ns
   | .ended ns step fp xp niter qs =>
       InB c ns ∧ n0 ≤ niter ∧ niter ≤ bound ∧
       (niter < bound → keepGoing c step fp = false) ∧
@@ -81,7 +81,7 @@ theorem nrLoop_good (c : NRCfg F) (obj : F → Eval F) (n0 bound : Nat) (s0 f0 :
     · -- boundary exit, reported as lower bound
       simp only [Good]
       have hmin' : ns = c.nsMin := by simpa using hmin
-      refine ⟨hin, trivial, trivial, hn0, by omega, Or.inl ⟨trivial, hmin', ?_⟩, hqs', hlen'⟩
+      refine ⟨hin, trivial, trivial, hn0, by omega, Or.inl ⟨trivial, hmin', ?_⟩, hqs', hlen', rfl⟩
       simp only [outward, Bool.or_eq_true, Bool.and_eq_true, beq_iff_eq, decide_eq_true_eq] at ho
       rcases ho with ⟨_, h⟩ | ⟨hmax, h⟩
       · exact Or.inl h
@@ -89,7 +89,7 @@ theorem nrLoop_good (c : NRCfg F) (obj : F → Eval F) (n0 bound : Nat) (s0 f0 :
     · -- boundary exit, reported as upper bound
       simp only [Good]
       have hmin' : ns ≠ c.nsMin := by simpa using hmin
-      refine ⟨hin, trivial, trivial, hn0, by omega, Or.inr ⟨trivial, hmin', ?_⟩, hqs', hlen'⟩
+      refine ⟨hin, trivial, trivial, hn0, by omega, Or.inr ⟨trivial, hmin', ?_⟩, hqs', hlen', rfl⟩
       simp only [outward, Bool.or_eq_true, Bool.and_eq_true, beq_iff_eq, decide_eq_true_eq] at ho
       rcases ho with ⟨h, _⟩ | ⟨hmax, h⟩
       · exact absurd h hmin'
@@ -281,6 +281,22 @@ theorem c11_nr_boundary_outward (c : NRCfg F) (obj : F → Eval F) (ns0 : F) (o 
       rw [hat] at this
       exact Bool.noConfusion this
     exact ⟨fun hh => absurd (Or.inl hh) hnb, fun hh => absurd (Or.inr hh) hnb⟩
+
+/-- **cost**: the objective is evaluated exactly `niter + 1` times, hence at most `max_steps + 1` times,
+and the last evaluation is at the reported point. -/
+theorem c11_nr_query_count (c : NRCfg F) (obj : F → Eval F) (ns0 : F) (o : NROut F)
+    (h : nr c obj ns0 = .ok o) (hb : c.nsMin ≤ c.nsMax) (h0 : ns0 ≤ c.nsMax) :
+    o.queries.length = o.niter + 1 ∧ o.queries.length ≤ c.maxSteps + 1 ∧ o.queries.getLast? = some o.x := by
+  rcases nr_ok c obj ns0 o h hb h0 with ⟨ev, flag, qs, hg, _, _, _, _, _, hq⟩ | ⟨qs, hg, _, _, _, hq⟩
+  · simp only [Good] at hg
+    obtain ⟨_, _, _, _, hlt, _, _, hlen, hhead⟩ := hg
+    rw [hq, List.length_reverse, hlen]
+    refine ⟨rfl, by omega, ?_⟩
+    rw [List.getLast?_reverse, hhead]
+  · simp only [Good] at hg
+    obtain ⟨_, _, hle, _, _, _, _, hlen⟩ := hg
+    rw [hq, List.length_reverse, List.length_cons, hlen]
+    exact ⟨rfl, by omega, by simp⟩
 
 end nr_theorems
 
@@ -544,6 +560,49 @@ theorem c11_wrapper_raises (attempt : Nat → Attempt F) [LT F] [DecidableLT F] 
     rw [← h1] at this
     rw [if_pos (by simp [this])]
     exact ⟨_, rfl⟩
+
+/-- **exactly when the wrapper raises**: there is an attempt `k ≤ max_repetitions` that did not
+converge, all earlier ones failed repeatably, and either `k` is not repeatable or the repetitions are
+used up.  (So: never an exception when an attempt in reach converged, never a result otherwise.) -/
+theorem c11_wrapper_error_iff (attempt : Nat → Attempt F) [LT F] [DecidableLT F] (maxReps : Nat)
+    (bounds : List (F × F)) (func : List F → F) :
+    (∃ e, wrapper attempt maxReps bounds func = .error e) ↔
+    ∃ k ≤ maxReps, (∀ j < k, Retry (attempt j)) ∧ (attempt k).converged = false ∧
+      ((attempt k).repeatable = false ∨ k = maxReps) := by
+  obtain ⟨h1, _, h3, h4, h5⟩ := wrapLoop_spec attempt maxReps 0
+  have h3' : (wrapLoop attempt maxReps 0 (attempt 0)).2 ≤ maxReps := by simpa using h3
+  constructor
+  · rintro ⟨e, he⟩
+    unfold wrapper at he
+    simp only at he
+    split_ifs at he with hc
+    refine ⟨(wrapLoop attempt maxReps 0 (attempt 0)).2, h3', fun j hj => h4 j (by omega) hj, ?_, ?_⟩
+    · rw [← h1]; simpa using hc
+    · by_cases hlt : (wrapLoop attempt maxReps 0 (attempt 0)).2 < maxReps
+      · left
+        have hnr := h5 (by omega)
+        unfold Retry at hnr
+        have hcf : (attempt (wrapLoop attempt maxReps 0 (attempt 0)).2).converged = false := by
+          rw [← h1]; simpa using hc
+        cases hrep : (attempt (wrapLoop attempt maxReps 0 (attempt 0)).2).repeatable with
+        | false => rfl
+        | true => exact absurd ⟨hcf, hrep⟩ hnr
+      · right; omega
+  · rintro ⟨k, hk, hall, hconv, hstop⟩
+    have hk2 : (wrapLoop attempt maxReps 0 (attempt 0)).2 = k := by
+      rcases lt_trichotomy (wrapLoop attempt maxReps 0 (attempt 0)).2 k with hlt | heq | hgt
+      · exact absurd (hall _ hlt) (h5 (by omega))
+      · exact heq
+      · exfalso
+        have hr := h4 k (by omega) hgt
+        rcases hstop with hs | hs
+        · rw [hr.2] at hs; exact Bool.noConfusion hs
+        · omega
+    unfold wrapper
+    simp only
+    rw [if_pos]
+    · exact ⟨_, rfl⟩
+    · rw [h1, hk2, hconv]; rfl
 
 variable [LinearOrder F]
 
@@ -918,3 +977,10 @@ example : ConvexOn ℝ (Set.Icc (-1 : ℝ) 2) (fun x => x ^ 2) ∧
   simpa using this
 
 end C11.Examples
+
+/-- **Obs (conservative)**: reaching the optimum with exactly the last allowed step is reported as "not
+converged" (flag 1) — allowed by the property (a loud failure), shown here on `x²` from 6 with
+`max_steps = 2`: the result is the exact optimum 0, yet flag 1. -/
+theorem c11_nr_last_step_conservative_witness :
+    ∃ o, nr { C11.Examples.cfgZ with maxSteps := 2 } C11.Examples.objZ 6 = .ok o ∧ o.x = 0 ∧ o.niter = 2 ∧ o.flag = 1 :=
+  ⟨_, rfl, rfl, rfl, rfl⟩
